@@ -122,7 +122,8 @@ samples.append({"hmc(3)": [list(p) for p in enum_cases[7][2]]})
 # ---------------------------------------------------------------------------
 def gen_pairs():
     """a list of (tx, rx) and a tag describing how it was made"""
-    n = ri(1, 9) if rng.random() < 0.85 else ri(9, 17)
+    u = rng.random()
+    n = ri(1, 9) if u < 0.82 else ri(9, 17) if u < 0.96 else ri(17, 41)     # the last: more elements than sqrt(256)
     r = rng.random()
     f = list(zip(*[[int(x) for x in a] for a in ut.fmc(n)]))
     h = list(zip(*[[int(x) for x in a] for a in ut.hmc(n)]))
@@ -193,27 +194,34 @@ for _ in range(N_PAIR):
         continue
     tx = [a for a, _ in l]
     rx = [b for _, b in l]
-    if rng.random() < 0.5:
-        atx, arx = np.array(tx), np.array(rx)
+    idt = "list"
+    if rng.random() < 0.6:
+        # element indices as stored by acquisition files: any integer dtype that can hold them
+        fits = [d for d in (np.int8, np.uint8, np.int16, np.uint16, np.int32, np.uint32, np.int64) if n - 1 <= np.iinfo(d).max]
+        d_ = fits[ri(0, len(fits))] if rng.random() < 0.7 else np.int64
+        atx, arx = np.array(tx, dtype=d_), np.array(rx, dtype=d_)
+        idt = np.dtype(d_).name
     else:
         atx, arx = tx, rx
+    chk.count(index_dtype=idt)
     got = ut.infer_capture_method(atx, arx)
     w = ut.default_timetrace_weights(atx, arx)
     wl = [float(x) for x in w]
     want = brute_infer(l)
     if got != want:
         chk.violation("infer:spec", f"infer_capture_method returns {got!r}, the pairs are {want!r} ({tag})",
-                      {"tx": tx, "rx": rx, "got": got, "want": want}, failing_input_found=True)
+                      {"tx": tx, "rx": rx, "index_dtype": idt, "got": got, "want": want}, failing_input_found=True)
     ws = set(l)
     wwant = [1.0 if (b, a) in ws else 2.0 for a, b in l]
     if wl != wwant:
         chk.violation("weights:spec", "default_timetrace_weights: weight is not 1 iff the reciprocal pair is present",
-                      {"tx": tx, "rx": rx, "got": wl, "want": wwant}, failing_input_found=True)
+                      {"tx": tx, "rx": rx, "index_dtype": idt, "got": wl, "want": wwant}, failing_input_found=True)
     if "hmc" in tag and tag.split("+")[0] in ("hmc", "hmc-mirrored") and sum(wl) != n * n:
         chk.violation("weights:hmc-sum", "default weights of an HMC do not sum to n^2",
                       {"tx": tx, "rx": rx, "got": wl}, failing_input_found=True)
     code = {"hmc": 2, "fmc": 1, "unsupported": 0}.get(got, -7)
-    pair_cases.append((l, code, [int(x) if float(x).is_integer() else -99 for x in wl], tag))
+    if n <= 16:       # (larger lists are decided by the specification above; the model is run on the others)
+        pair_cases.append((l, code, [int(x) if float(x).is_integer() else -99 for x in wl], tag))
     evaluations += 1
     nontrivial.add(("pairs", tuple(l)))
     chk.count(pairs_kind=tag.split("+")[0], infer=got)
@@ -265,6 +273,10 @@ def make_probe(labels, variant):
         kw["shapes"] = [SHAPES[int(x) % 3] for x in labels]
     if variant & 8:
         kw["dead_elements"] = [bool(int(x) % 2) for x in labels]
+    if variant & 16:
+        # a probe that has been positioned: its own coordinate system (PCS) differs from the global one
+        # (rotated basis, displaced origin); the element locations handed to Probe stay the global ones
+        kw["pcs"] = g.CoordinateSystem(origin=(3.0, -2.0, 5.0), i_hat=(0.0, 1.0, 0.0), j_hat=(0.0, 0.0, 1.0))
     return core.Probe(loc, 1e6, **kw)
 
 
@@ -408,7 +420,7 @@ def one_chain(ci, ctx, plan=None):
     if plan:
         n = plan["n"]
     labels = [int(x) for x in rng.choice(np.arange(1, 900), size=n, replace=False)]
-    variant = ri(0, 16)
+    variant = ri(0, 32)
     pr0 = make_probe(labels, variant)
     pr0_dead = bool(variant & 8)
     pairs, ftag = gen_frame_pairs(n)
